@@ -177,7 +177,12 @@ impl LazyScopedVariables {
     }
 
     pub(super) fn evaluate_all(&self, exec: &mut EvaluationContext) -> Result<(), ExecutionError> {
-        for (name, cell) in &self.variables {
+        // hash maps iterate in random order; force in name order so that the reported error is
+        // deterministic
+        let mut names = self.variables.keys().collect::<Vec<_>>();
+        names.sort();
+        for name in names {
+            let cell = &self.variables[name];
             let values = cell.replace(ScopedValues::Forcing);
             let map = self.force(name, values, exec)?;
             cell.replace(ScopedValues::Forced(map));
